@@ -17,7 +17,7 @@ import (
 
 func init() { register("C04", checkC04) }
 
-var c04Refs = []string{"$BLK1", "${BLK2}", "$BLK1-", "$X", "${X}", "$$X", `\$X`, "$${Y}", "${Y:-d}", "${UNSET:-dflt}", "${UNSET-$Y}", "${W:0:1}", "$Y", "$Z", "${Z:-zd}", "$UNSET", "$X$Y", "pre${Y}post", "$$$$"}
+var c04Refs = []string{`\$`, `x\$`, `\$`, "$", "a$", "$$", `\\$X`, `\`, `\\`, "$BLK1", "${BLK2}", "$BLK1-", "$X", "${X}", "$$X", `\$X`, "$${Y}", "${Y:-d}", "${UNSET:-dflt}", "${UNSET-$Y}", "${W:0:1}", "$Y", "$Z", "${Z:-zd}", "$UNSET", "$X$Y", "pre${Y}post", "$$$$"}
 
 func c04Env() map[string]string {
 	return map[string]string{"X": "$Y", "Y": "yval", "Z": "", "W": "w w", "DOLLAR": "$$X"}
